@@ -260,6 +260,7 @@ class Interp:
         self.super_hook: Optional[Callable[..., Any]] = None  # model of external base-class methods
         self.call_stack: List[str] = []
         self._with_stack: List[List[Any]] = []
+        self._yield_stack: List[List[Any]] = []
         from . import extlib  # late import (extlib uses this module's names)
 
         self.ext = extlib
@@ -379,6 +380,8 @@ class Interp:
             return TV(term, kind="opaque" if isinstance(f, TV) and f.kind == "opaque" and isinstance(ft, T) and ft.op == "attr" else "tensor")
         if isinstance(f, Unknown):
             return Unknown(f"call of {f}")
+        if f is BOTTOM:
+            return BOTTOM
         raise Unsupported(f"call of {type(f).__name__} {f!r}")
 
     def bind(self, f: FuncV, args: List[Any], kwargs: Dict[str, Any]) -> Dict[str, Any]:
@@ -446,6 +449,9 @@ class Interp:
         env = Env(f.env, bound)
         if f.cls is not None:
             env.vars["__class__"] = f.cls
+        is_gen = any(isinstance(n_, (ast.Yield, ast.YieldFrom)) for st_ in f.node.body for n_ in _walk_no_defs(st_))
+        if is_gen:
+            self._yield_stack.append([])
         saved_mod = self.cur_mod
         self.cur_mod = f.module
         self.depth += 1
@@ -456,6 +462,13 @@ class Interp:
             self.depth -= 1
             self.call_stack.pop()
             self.cur_mod = saved_mod
+            ys = self._yield_stack.pop() if is_gen else None
+        if is_gen:
+            # generator function: body evaluated eagerly, the yielded values form a one-shot iterable;
+            # an exception raised in the body surfaces when the generator is consumed
+            if val is BOTTOM:
+                return BOTTOM
+            return OneShot(ys)
         return val
 
     def run(self, f: FuncV, **bound: Any) -> Any:
@@ -641,10 +654,14 @@ class Interp:
         if isinstance(st, ast.Expr):
             if isinstance(st.value, ast.Constant):
                 return None  # docstring
-            self.eval(st.value, env, mi)
+            v = self.eval(st.value, env, mi)
+            if v is BOTTOM:
+                return ("raise", None)  # the exception raised inside the callee propagates
             return None
         if isinstance(st, ast.Assign):
             v = self.eval(st.value, env, mi)
+            if v is BOTTOM:
+                return ("raise", None)
             for t in st.targets:
                 self.assign(t, v, env, mi, st)
             return None
@@ -660,6 +677,8 @@ class Interp:
             return None
         if isinstance(st, ast.Return):
             v = self.eval(st.value, env, mi) if st.value is not None else None
+            if v is BOTTOM:
+                return ("raise", None)
             return ("return", v)
         if isinstance(st, ast.Raise):
             exc = None
@@ -1382,6 +1401,21 @@ class Interp:
         if isinstance(v, (ExtV, ClassV)):
             return v  # typing subscripts: Dict[...], Optional[...]
         raise Unsupported(f"subscript of {type(v).__name__}")
+
+    def e_Yield(self, n: ast.Yield, env: Env, mi: ModInfo) -> Any:
+        v = self.eval(n.value, env, mi) if n.value is not None else None
+        if not self._yield_stack:
+            raise Unsupported("yield outside a generator function")
+        self._yield_stack[-1].append(v)
+        return None
+
+    def e_YieldFrom(self, n: ast.YieldFrom, env: Env, mi: ModInfo) -> Any:
+        v = self.eval(n.value, env, mi)
+        seq = self.concrete_iter(v)
+        if seq is None or not self._yield_stack:
+            raise Unsupported("yield from a non-concrete iterable")
+        self._yield_stack[-1].extend(seq)
+        return None
 
     def e_Starred(self, n: ast.Starred, env: Env, mi: ModInfo) -> Any:
         raise Unsupported("starred expression")
